@@ -129,7 +129,7 @@ Proof.
     assert (Hin : In (Some (e, ch)) sl) by (apply kids_of_In; auto).
     rewrite Forall_forall in IH. destruct (IH _ Hin L HL) as [H1 H2]. split; auto.
     intros x Hx. rewrite leaves_unfold. destruct (kids_of sl) eqn:E; [destruct Hp|]. rewrite <- E.
-    unfold kleaves. rewrite in_flat_map. exists (e, ch). split; auto.
+    unfold kleaves. rewrite in_flat_map. exists (e, ch). split; auto. rewrite E. exact Hp.
 Qed.
 
 Lemma reparent_clt c : clt (reparent c) = clt c.
@@ -184,7 +184,7 @@ Section Clades.
     rewrite fcl_app. change (L' :: Cl') with ([L'] ++ Cl'). apply eq_cl_app; auto.
     unfold fcl. simpl. rewrite app_nil_r.
     destruct (filter k (leaves t)) as [|a r] eqn:E.
-    - apply Permutation_nil in HP. congruence.
+    - symmetry in HP. apply Permutation_nil in HP. congruence.
     - split; intros x [<-|[]]; eexists; (split; [now left|]); auto. now symmetry.
   Qed.
 
@@ -220,15 +220,347 @@ Section Clades.
     { rewrite leaves_unfold in Hnd. destruct (kids_of sl); [congruence|auto]. }
     generalize (node_hit nm sl (all_hit_ok sl) Hwk Hsk Hndk).
     destruct (first_hit (hit nm (rm_sub nm)) 0 sl) as [[[i e] o]|]; [|intros _; exact I].
-    intros [A [ch [B [-> [-> [Ho [Hnf [HA [HB [Hin [Hwch Hsch]]]]]]]]]]].
+    intros [A [ch [B [-> [-> [Ho [Hnf [HA [HB [Hin [Hwch [Hsch Heqo]]]]]]]]]]]].
     assert (Hch : out_cl ch o).
     { rewrite Forall_forall in IH. specialize (IH (Some (e, ch)) ltac:(apply in_or_app; right; now left)).
       simpl in IH. kidsplit.
       assert (Hnd' : NoDup (leaves ch)).
       { apply NoDup_app_remove_l in Hndk. now apply NoDup_app_remove_r in Hndk. }
-      generalize (IH Hwch Hsch Hnd'). unfold hit.
-      destruct (first_hit_some _ _ _ _ _ _ (eq_refl _ : first_hit (hit nm (rm_sub nm)) 0 (A ++ Some (e, ch) :: B) = _)) || idtac.
-      auto. }
-    admit.
-  Admitted.
+      generalize (IH Hwch Hsch Hnd'). now rewrite Heqo. }
+    set (T := UNode n c (A ++ Some (e, ch) :: B)) in *.
+    assert (CT : clades T = kcl (kids_of A ++ (e, ch) :: kids_of B)).
+    { unfold T. rewrite clades_unfold. now kidsplit. }
+    kidsplit.
+    destruct o as [|ch'| |ec cc|m]; simpl in Ho; unfold out_cl in Hch.
+    - congruence.
+    - (* kept below *)
+      rewrite set_nth_app in *. simpl in Hout. destruct Hout as [_ [_ [_ [Hk' [HD _]]]]].
+      simpl. apply clt_head.
+      + now apply leaves_from_depths.
+      + apply leaves_nonempty.
+      + match goal with |- eq_cl (clades ?X) _ =>
+          assert (EC : clades X = kcl (kids_of A) ++ clt ch' ++ kcl (kids_of B)) end.
+        { rewrite clades_unfold. kidsplit. now rewrite kcl_app, kcl_cons. }
+        rewrite EC, CT.
+        eapply eq_cl_trans; [|apply (node_cl (kids_of A) (kids_of B) (e, ch) (clt ch')); auto].
+        apply eq_cl_perm. perm.
+    - (* the child is the tip *)
+      rewrite remove_nth_app in *.
+      assert (G : eq_cl (kcl (kids_of (A ++ B))) (fcl k (clades T))).
+      { rewrite CT. kidsplit. rewrite kcl_app.
+        eapply eq_cl_trans; [|apply (node_cl (kids_of A) (kids_of B) (e, ch) []); auto].
+        - rewrite app_nil_r. apply eq_cl_refl.
+        - simpl snd. rewrite Hch. apply eq_cl_refl. }
+      destruct (after_del_sub nm n c (A ++ B)) as [|T'| |e2 c2|m] eqn:Ead; simpl in Hout; try exact I.
+      + (* OKeep *)
+        destruct Hout as [_ [_ [_ [Hk' [HD _]]]]].
+        assert (ET : T' = UNode n c (A ++ B)).
+        { clear -Ead. unfold after_del_sub in Ead.
+          destruct (A ++ B) as [|s1 [|s2 [|s3 L]]]; try discriminate;
+            try (destruct s1 as [[? ?]|]; discriminate);
+            try (destruct s1 as [[? ?]|], s2 as [[? ?]|]; discriminate);
+            try (destruct s1 as [[? ?]|], s2 as [[? ?]|]; injection Ead as <-; reflexivity).
+          injection Ead as <-. reflexivity. }
+        subst T'. simpl. apply clt_head.
+        * now apply leaves_from_depths.
+        * apply leaves_nonempty.
+        * rewrite clades_unfold. exact G.
+      + (* OGone: excluded by the first lemma *)
+        exfalso. destruct Hout as [Hk0 _]. unfold T, kids in Hk0. simpl uslots in Hk0. kidsplit.
+        destruct (kids_of A); discriminate.
+      + (* OSplice *)
+        destruct Hout as [_ [Hw2 [Hs2 [HD _]]]].
+        assert (EL : kids_of (A ++ B) = [(e2, c2)]).
+        { clear -Ead. unfold after_del_sub in Ead.
+          destruct (A ++ B) as [|s1 [|s2 [|s3 L]]]; try discriminate;
+            try (destruct s1 as [[? ?]|]; discriminate);
+            try (destruct s1 as [[? ?]|], s2 as [[? ?]|]; try discriminate; injection Ead as <- <-; reflexivity).
+          all: try (destruct s1 as [[? ?]|], s2 as [[? ?]|]; discriminate). }
+        rewrite EL in G. unfold kcl in G. simpl in G. rewrite app_nil_r in G.
+        simpl.
+        assert (HL : Permutation (leaves c2) (filter k (leaves T))).
+        { apply deq_names in HD. now rewrite shift_names, fD_names, !depths_names in HD. }
+        eapply eq_cl_trans; [|apply (clt_head T (leaves c2) (clt c2) HL (leaves_nonempty c2) G)].
+        split.
+        * apply sub_cl_incl. intros x Hx. now right.
+        * intros x [<-|Hx]; [exists (leaves c2); split; [now left|reflexivity]|exists x; split; auto].
+    - (* a child was suppressed *)
+      unfold splice in *. rewrite remove_nth_app in *. simpl in Hout.
+      destruct Hout as [_ [_ [_ [Hk' [HD _]]]]].
+      simpl. apply clt_head.
+      + now apply leaves_from_depths.
+      + apply leaves_nonempty.
+      + match goal with |- eq_cl (clades ?X) _ =>
+          assert (EC : clades X = (kcl (kids_of A) ++ kcl (kids_of B)) ++ clt cc) end.
+        { rewrite clades_unfold. kidsplit. rewrite !kcl_app, kcl_cons. simpl snd.
+          rewrite reparent_clt. change (kcl []) with (@nil (list string)). now rewrite app_nil_r. }
+        rewrite EC, CT.
+        eapply eq_cl_trans; [|apply (node_cl (kids_of A) (kids_of B) (e, ch) (clt cc)); auto].
+        apply eq_cl_perm. perm.
+    - destruct Ho.
+  Qed.
 End Clades.
+
+(** * the root, one removal *)
+(** [A] is, in the unrooted tree [t'], the whole leaf set, or one side of a branch *)
+Definition cover (t' : utree) (A : list string) : Prop :=
+  Permutation A (leaves t') \/
+  exists L', In L' (clades t') /\ (Permutation L' A \/ Permutation (L' ++ A) (leaves t')).
+
+Section RootClades.
+  Variable nm : string.
+  Notation k := (knm nm).
+
+  Ltac kidsplit :=
+    repeat (rewrite ?kids_of_app, ?kids_of_cons_some, ?kids_of_cons_none, ?forallb_app, ?andb_true_iff,
+            ?n_up_app, ?n_up_cons, ?n_up_nil, ?app_length, ?kleaves_app, ?kleaves_cons in *; simpl forallb in *; simpl snd in *;
+            simpl length in *).
+
+  Definition cl_post (t t' : utree) : Prop :=
+    sub_cl (clades t') (fcl k (clades t)) /\ (forall A, In A (fcl k (clades t)) -> cover t' A).
+
+  Lemma cl_post_of_eq t t' : eq_cl (clades t') (fcl k (clades t)) -> cl_post t t'.
+  Proof.
+    intros [H1 H2]. split; auto. intros A HA. destruct (H2 A HA) as [y [Hy P]].
+    right. exists y. split; auto. left. now symmetry.
+  Qed.
+
+  Lemma remove_tip_cl t t' :
+    wf t = true -> no_single t = true -> degree t <> 1 -> NoDup (leaves t) ->
+    remove_tip nm t = Ok t' -> cl_post t t'.
+  Proof.
+    destruct t as [n c sl]. intros Hwf Hns Hdeg Hnd Hrm.
+    rewrite wf_unfold in Hwf. rewrite no_single_unfold in Hns.
+    apply andb_true_iff in Hwf. destruct Hwf as [Hup Hwk]. apply Nat.eqb_eq in Hup.
+    unfold degree in Hdeg. simpl in Hdeg.
+    unfold remove_tip in Hrm.
+    destruct (is_tip (UNode n c sl) && String.eqb n nm); [discriminate|].
+    destruct (kids_of sl) as [|k0 kr] eqn:Ek.
+    { assert (sl = []) as ->.
+      { generalize (length_slots sl). rewrite Ek, Hup. destruct sl; simpl; auto. lia. }
+      simpl in Hrm. discriminate. }
+    assert (Hne : kids_of sl <> []) by (rewrite Ek; discriminate).
+    assert (Hndk : NoDup (kleaves (kids_of sl))).
+    { rewrite leaves_unfold, Ek in Hnd. now rewrite Ek. }
+    rewrite <- Ek in *. clear Ek k0 kr.
+    generalize (node_hit nm sl (all_hit_ok nm sl) Hwk Hns Hndk).
+    destruct (first_hit (hit nm (rm_sub nm)) 0 sl) as [[[i e] o]|]; [|discriminate].
+    intros [A [ch [B [-> [-> [Ho [Hnf [HA [HB [Hin [Hwch [Hsch Heqo]]]]]]]]]]]].
+    assert (Hch : out_cl nm ch o).
+    { kidsplit.
+      assert (Hnd' : NoDup (leaves ch)).
+      { apply NoDup_app_remove_l in Hndk. now apply NoDup_app_remove_r in Hndk. }
+      generalize (rm_sub_cl nm ch Hwch Hsch Hnd'). unfold hit_cl. now rewrite Heqo. }
+    set (T := UNode n c (A ++ Some (e, ch) :: B)) in *.
+    assert (CT : clades T = kcl (kids_of A ++ (e, ch) :: kids_of B)).
+    { unfold T. rewrite clades_unfold. now kidsplit. }
+    kidsplit. destruct Hwk as [HwA [_ HwB]]. destruct Hns as [HsA [_ HsB]].
+    destruct o as [|ch'| |ec cc|m]; simpl in Ho; unfold out_cl in Hch.
+    - congruence.
+    - rewrite set_nth_app in Hrm. injection Hrm as <-. apply cl_post_of_eq.
+      match goal with |- eq_cl (clades ?X) _ =>
+        assert (EC : clades X = kcl (kids_of A) ++ clt ch' ++ kcl (kids_of B)) end.
+      { rewrite clades_unfold. kidsplit. now rewrite kcl_app, kcl_cons. }
+      rewrite EC, CT.
+      eapply eq_cl_trans; [|apply (node_cl nm (kids_of A) (kids_of B) (e, ch) (clt ch')); auto].
+      apply eq_cl_perm. perm.
+    - (* a tip attached to the root *)
+      rewrite remove_nth_app in Hrm.
+      assert (G : eq_cl (kcl (kids_of (A ++ B))) (fcl k (clades T))).
+      { rewrite CT. kidsplit. rewrite kcl_app.
+        eapply eq_cl_trans; [|apply (node_cl nm (kids_of A) (kids_of B) (e, ch) []); auto].
+        - rewrite app_nil_r. apply eq_cl_refl.
+        - simpl snd. rewrite Hch. apply eq_cl_refl. }
+      assert (HwL : forallb (fun p => wf_sub (snd p)) (kids_of (A ++ B)) = true) by (kidsplit; auto).
+      assert (HuL : n_up (A ++ B) = 0) by (kidsplit; lia).
+      assert (HlL : length (A ++ B) <> 0) by (kidsplit; lia).
+      remember (A ++ B) as L. clear HeqL.
+      destruct L as [|s1 [|s2 [|s3 L]]].
+      + simpl in HlL. lia.
+      + (* Case 1b *)
+        destruct s1 as [[e1 [n1 cm1 sl1]]|]; [|unfold n_up in HuL; simpl in HuL; lia].
+        simpl in Hrm. injection Hrm as <-.
+        unfold kcl in G. simpl in G. rewrite app_nil_r in G. destruct G as [G1 G2].
+        assert (EC : clades (UNode n1 cm1 (drop_up sl1)) = clades (UNode n1 cm1 sl1)).
+        { now rewrite !clades_unfold, kids_of_drop_up. }
+        assert (EL : leaves (UNode n1 cm1 (drop_up sl1)) = leaves (UNode n1 cm1 sl1)).
+        { apply leaves_kids; auto. apply kids_of_drop_up. }
+        split.
+        * rewrite EC. eapply sub_cl_trans; [|exact G1]. apply sub_cl_incl. intros x Hx. now right.
+        * intros A0 HA0. destruct (G2 A0 HA0) as [y [[<-|Hy] P]].
+          -- left. now rewrite EL.
+          -- right. exists y. rewrite EC. split; auto. left. now symmetry.
+      + (* Case 2 at the root *)
+        destruct s1 as [[e1 c1]|]; [|rewrite n_up_cons in HuL; lia].
+        destruct s2 as [[e2 c2]|]; [|rewrite !n_up_cons in HuL; lia].
+        simpl in HwL. rewrite andb_true_r in HwL. apply andb_true_iff in HwL. destruct HwL as [Hw1 Hw2].
+        unfold kcl in G. simpl in G. rewrite app_nil_r in G.
+        assert (Key : forall ca cb e',
+                   wf_sub ca = true -> Nat.ltb 1 (degree ca - 1) = true ->
+                   eq_cl (clt ca ++ clt cb) (fcl k (clades T)) ->
+                   cl_post T (UNode (uname ca) (ucom ca) (drop_up (uslots ca) ++ [Some (e', reparent cb)]))).
+        { clear Hrm. intros [na cma sla] cb e' Hwa Hda [Ga1 Ga2].
+          simpl uname. simpl ucom. simpl uslots.
+          rewrite wf_sub_unfold in Hwa. apply andb_true_iff in Hwa. destruct Hwa as [Hua _]. apply Nat.eqb_eq in Hua.
+          unfold degree in Hda. simpl in Hda. apply Nat.ltb_lt in Hda.
+          assert (Hka : kids_of sla <> []).
+          { intros E0. generalize (length_slots sla). rewrite E0, Hua. simpl. lia. }
+          assert (EC : clades (UNode na cma (drop_up sla ++ [Some (e', reparent cb)])) =
+                       clades (UNode na cma sla) ++ clt cb).
+          { rewrite !clades_unfold. kidsplit. rewrite kids_of_drop_up, kcl_app, kcl_cons. simpl snd.
+            rewrite reparent_clt. change (kcl []) with (@nil (list string)). now rewrite app_nil_r. }
+          assert (EL : leaves (UNode na cma (drop_up sla ++ [Some (e', reparent cb)])) =
+                       leaves (UNode na cma sla) ++ leaves cb).
+          { rewrite !leaves_unfold. kidsplit. rewrite kids_of_drop_up.
+            destruct (kids_of sla ++ [(e', reparent cb)]) eqn:E0; [destruct (kids_of sla); discriminate|].
+            destruct (kids_of sla) eqn:E1; [congruence|]. rewrite reparent_leaves.
+            unfold kleaves at 2. simpl. now rewrite app_nil_r. }
+          split.
+          - rewrite EC. eapply sub_cl_trans; [|exact Ga1]. apply sub_cl_incl.
+            intros x Hx. apply in_app_or in Hx. apply in_or_app. destruct Hx as [Hx|Hx]; auto. left. now right.
+          - intros A0 HA0. destruct (Ga2 A0 HA0) as [y [Hy P]]. right.
+            apply in_app_or in Hy. destruct Hy as [[<-|Hy]|Hy].
+            + (* the side of ca: the complement of the branch to cb *)
+              exists (leaves cb). rewrite EC, EL. split; [apply in_or_app; right; now left|].
+              right. rewrite P. apply Permutation_app_comm.
+            + exists y. rewrite EC. split; [apply in_or_app; auto|]. left. now symmetry.
+            + exists y. rewrite EC. split; [apply in_or_app; auto|]. left. now symmetry. }
+        destruct c1 as [n1 cm1 sl1], c2 as [n2 cm2 sl2].
+        unfold after_del_root in Hrm. cbv zeta in Hrm.
+        destruct (Nat.ltb 1 (degree (UNode n1 cm1 sl1) - 1)) eqn:E1.
+        * cbv iota in Hrm. injection Hrm as <-.
+          apply (Key (UNode n1 cm1 sl1) (UNode n2 cm2 sl2)); auto.
+        * destruct (Nat.ltb 1 (degree (UNode n2 cm2 sl2) - 1)) eqn:E2.
+          -- cbv iota in Hrm. injection Hrm as <-.
+             apply (Key (UNode n2 cm2 sl2) (UNode n1 cm1 sl1)); auto.
+             eapply eq_cl_trans; [|exact G]. apply eq_cl_perm. apply Permutation_app_comm.
+          -- cbv iota in Hrm.
+             destruct (Nat.eqb (degree (UNode n2 cm2 sl2) - 1) 1 || Nat.eqb (degree (UNode n1 cm1 sl1) - 1) 1); discriminate.
+      + (* Case 3 *)
+        assert (E3 : after_del_root nm n c (s1 :: s2 :: s3 :: L) = Ok (UNode n c (s1 :: s2 :: s3 :: L))).
+        { destruct s1 as [[? [? ? ?]]|], s2 as [[? ?]|]; reflexivity. }
+        rewrite E3 in Hrm. injection Hrm as <-. apply cl_post_of_eq. now rewrite clades_unfold.
+    - (* a child of the root was suppressed *)
+      unfold splice in Hrm. rewrite remove_nth_app in Hrm. injection Hrm as <-. apply cl_post_of_eq.
+      match goal with |- eq_cl (clades ?X) _ =>
+        assert (EC : clades X = (kcl (kids_of A) ++ kcl (kids_of B)) ++ clt cc) end.
+      { rewrite clades_unfold. kidsplit. rewrite !kcl_app, kcl_cons. simpl snd.
+        rewrite reparent_clt. change (kcl []) with (@nil (list string)). now rewrite app_nil_r. }
+      rewrite EC, CT.
+      eapply eq_cl_trans; [|apply (node_cl nm (kids_of A) (kids_of B) (e, ch) (clt cc)); auto].
+      apply eq_cl_perm. perm.
+    - destruct Ho.
+  Qed.
+End RootClades.
+
+(** * the loop *)
+Lemma cover_perm t A A' : Permutation A A' -> cover t A -> cover t A'.
+Proof.
+  intros P [H|[L' [HL [H|H]]]].
+  - left. now rewrite <- P.
+  - right. exists L'. split; auto. left. now rewrite <- P.
+  - right. exists L'. split; auto. right. now rewrite <- P.
+Qed.
+
+Lemma clades_in_clt t L : In L (clades t) -> In L (clt t).
+Proof. intros H. now right. Qed.
+
+Lemma cover_step nm t t' X :
+  wf t = true -> no_single t = true -> degree t <> 1 -> NoDup (leaves t) ->
+  remove_tip nm t = Ok t' ->
+  cover t X -> filter (knm nm) X <> [] -> cover t' (filter (knm nm) X).
+Proof.
+  intros Hwf Hns Hdeg Hnd Hrm HX Hne.
+  destruct (remove_tip_ok nm t t' Hwf Hns Hdeg Hnd Hrm) as [_ [_ [_ [_ [Hlv _]]]]].
+  destruct (remove_tip_cl nm t t' Hwf Hns Hdeg Hnd Hrm) as [_ HC].
+  destruct HX as [P|[L [HL [P|P]]]].
+  - left. rewrite Hlv. now apply Permutation_filter.
+  - apply (cover_perm t' (filter (knm nm) L)); [now apply Permutation_filter|].
+    apply HC. apply fcl_in. split; [|eauto].
+    intros E. apply Hne. apply Permutation_nil. rewrite <- E. symmetry. now apply Permutation_filter.
+  - assert (Q : Permutation (filter (knm nm) L ++ filter (knm nm) X) (leaves t')).
+    { rewrite Hlv, <- filter_app. now apply Permutation_filter. }
+    destruct (filter (knm nm) L) as [|a r] eqn:EL.
+    + left. exact Q.
+    + rewrite <- EL in *.
+      assert (HinF : In (filter (knm nm) L) (fcl (knm nm) (clades t))).
+      { apply fcl_in. split; [rewrite EL; discriminate|eauto]. }
+      destruct (HC _ HinF) as [P1|[L' [HL' [P1|P1]]]].
+      * exfalso. rewrite <- P1 in Q. apply Permutation_length in Q. rewrite app_length in Q.
+        destruct (filter (knm nm) X); [congruence|simpl in Q; lia].
+      * right. exists L'. split; auto. right. now rewrite P1.
+      * right. exists L'. split; auto. left.
+        apply (Permutation_app_inv_r (filter (knm nm) L)). rewrite P1, <- Q. apply Permutation_app_comm.
+Qed.
+
+Section LoopClades.
+  Variable revert : bool.
+  Variable names : list string.
+
+  Lemma remove_loop_cl : forall todo t t',
+      wf t = true -> no_single t = true -> degree t <> 1 -> NoDup (leaves t) ->
+      remove_loop revert names todo t = Ok t' ->
+      sub_cl (clades t') (fcl (pending revert names todo) (clades t)) /\
+      (forall X, cover t X -> filter (pending revert names todo) X <> [] ->
+                 cover t' (filter (pending revert names todo) X)).
+  Proof.
+    induction todo as [|nm r IH]; intros t t' Hwf Hns Hdeg Hnd Hl.
+    - simpl in Hl. injection Hl as Heq. subst t'. split.
+      + intros L HL. exists L. split; auto. apply fcl_in.
+        destruct (clt_sub t L (clades_in_clt t L HL)) as [Hne _]. split; auto.
+        exists L. split; auto. unfold pending. simpl. now rewrite filter_true.
+      + intros X HX _. unfold pending. simpl. now rewrite filter_true.
+    - simpl in Hl. destruct (negb (has_tip nm t)); [discriminate|].
+      destruct (selected revert names nm) eqn:Hs.
+      + destruct (remove_tip nm t) as [t1|m] eqn:Hrm; [|discriminate].
+        destruct (remove_tip_ok nm t t1 Hwf Hns Hdeg Hnd Hrm) as [Hwf1 [Hns1 [Hdeg1 [Hin [Hlv Hpd]]]]].
+        assert (Hnd1 : NoDup (leaves t1)).
+        { eapply NoDup_perm; [symmetry; exact Hlv|]. now apply NoDup_filter'. }
+        destruct (IH t1 t' Hwf1 Hns1 Hdeg1 Hnd1 Hl) as [S1 C1].
+        destruct (remove_tip_cl nm t t1 Hwf Hns Hdeg Hnd Hrm) as [S0 _].
+        assert (Ef : forall (X : list string),
+                   filter (pending revert names (nm :: r)) X = filter (pending revert names r) (filter (knm nm) X)).
+        { intros X. rewrite filter_filter. apply filter_ext. intros x. now apply pending_cons_sel. }
+        split.
+        * eapply sub_cl_trans; [exact S1|].
+          eapply sub_cl_trans; [apply fcl_sub, S0|].
+          rewrite fcl_fcl. erewrite fcl_ext; [apply sub_cl_refl|].
+          intros x. symmetry. now apply pending_cons_sel.
+        * intros X HX Hne. rewrite Ef in *. apply C1; auto.
+          apply (cover_step nm t t1 X); auto.
+          intros E. rewrite E in Hne. simpl in Hne. congruence.
+      + destruct (IH t t' Hwf Hns Hdeg Hnd Hl) as [S1 C1].
+        assert (Ef : forall (X : list string),
+                   filter (pending revert names (nm :: r)) X = filter (pending revert names r) X).
+        { intros X. apply filter_ext. intros x. now apply pending_cons_unsel. }
+        split.
+        * erewrite fcl_ext; [exact S1|]. intros x. now apply pending_cons_unsel.
+        * intros X HX Hne. rewrite Ef in *. now apply C1.
+  Qed.
+
+  (** Tree.RemoveTips: the clades of the result are restrictions of clades of the input, and
+      every non-empty restriction of a clade of the input is, in the result, the whole leaf set,
+      a clade, or the complement of a clade *)
+  Theorem remove_tips_clades t t' :
+    wf t = true -> no_single t = true -> 2 <= degree t -> NoDup (leaves t) ->
+    remove_tips revert names t = Ok t' ->
+    (forall L', In L' (clades t') -> exists L, In L (clades t) /\ Permutation L' (filter (kept revert names) L)) /\
+    (forall L, In L (clades t) -> filter (kept revert names) L <> [] -> cover t' (filter (kept revert names) L)).
+  Proof.
+    intros Hwf Hns Hdeg Hnd Hr. unfold remove_tips in Hr.
+    destruct (remove_loop revert names (tip_names t) t) as [t1|m] eqn:Hl; [|discriminate].
+    destruct (update_tip_index t1); [|discriminate]. injection Hr as Heq. subst t'.
+    rewrite tip_names_leaves in Hl by auto.
+    destruct (remove_loop_cl _ _ _ Hwf Hns ltac:(lia) Hnd Hl) as [S C].
+    assert (Ef : forall L, In L (clades t) ->
+                           filter (pending revert names (leaves t)) L = filter (kept revert names) L).
+    { intros L HL. apply filter_ext_in. intros x Hx.
+      destruct (clt_sub t L (clades_in_clt t L HL)) as [_ Hi].
+      unfold pending, kept. now rewrite (name_in_In x (leaves t) (Hi x Hx)). }
+    split.
+    - intros L' HL'. destruct (S L' HL') as [A [HA P]]. apply fcl_in in HA.
+      destruct HA as [_ [L [HL ->]]]. exists L. split; auto. now rewrite <- (Ef L HL).
+    - intros L HL Hne. rewrite <- (Ef L HL) in *. apply C; auto.
+      right. exists L. split; auto.
+  Qed.
+End LoopClades.
